@@ -35,7 +35,9 @@ ASSUMPTIONS = [
 ]
 BOUND = {
     "quick": "3 structures x 128 feature subsets x {AMBER, PARSE} x {default, "
-    "--clean}",
+    "--clean}; every generated mmCIF file has a loop layout of its own "
+    "(item order, *_esd items, optional items left out) and one of three "
+    "header variants (wwPDB header, none, unknown-value markers)",
     "thorough": "4 structures (adds the nucleic strand) x 128 subsets x 6 force fields x 4 option sets",
 }
 FEATURES = ["altloc", "icode", "charge", "name4", "models", "negative",
